@@ -5,3 +5,6 @@ import TsVerif.C12.Props
 #print axioms TsVerif.C12.marked_bound
 #print axioms TsVerif.C12.marked_upper
 #print axioms TsVerif.C12.lex_calls_bound
+#print axioms TsVerif.C12.countReachKids_le
+#print axioms TsVerif.C12.marked_fanout_bound
+#print axioms TsVerif.C12.rebuilt_kid_reaches
